@@ -13,8 +13,8 @@ from fractions import Fraction
 LEVEL = "exploration"
 MANIFEST = {
     "level": "exploration",
-    "technique": "contract-based deductive verification (AST->SMT, z3, real arithmetic) of the kern dotted-duration kernel dot_function/add_durations; exhaustive closed evaluation of the finite decoders (kern pitch tokens, MEI key signatures, clef octave displacement); the readers themselves (lxml / numpy string arrays / regular expressions, 2200 lines) are outside the verifier's reach and are checked as run-time contracts (bounded) against abstract documents rendered by independent MEI and **kern writers",
-    "text": "Proved for every positive reciprocal value and 0..4 dots: the kern duration of a dotted value is value/(2 - 2^-dots). Closed: all kern pitch tokens with 1..4 letters and all accidentals, all MEI signatures 7f..7s, all clef displacements. Bounded: pitch spelling, onset and duration in quarters, ties, grace notes, voices/staves/parts, measure starts, meter/key/clef, exact divisions, on generated documents; export->load keeps onset, duration, pitch, staff; reader chosen by extension.",
+    "technique": "contract-based deductive verification (AST->SMT, z3, real arithmetic) of the kern dotted-duration kernel dot_function/add_durations and of the MEI duration arithmetic MeiParser._duration_info (value x dots x tuplet ratio for every divisions value); exhaustive closed evaluation of the finite decoders (kern pitch tokens, MEI key signatures, clef octave displacement); the readers themselves (lxml / numpy string arrays / regular expressions, 2200 lines) are outside the verifier's reach and are checked as run-time contracts (bounded) against abstract documents rendered by independent MEI and **kern writers",
+    "text": "Proved for every positive reciprocal value and 0..4 dots: the kern duration of a dotted value is value/(2 - 2^-dots); proved for every divisions value that represents it: the MEI duration of a value 1..32 with 0..3 dots inside no tuplet, a 3:2 or a 5:4 tuplet is divs*4/value*(2-2^-dots)*numbase/num. Closed: all kern pitch tokens with 1..4 letters and all accidentals, all MEI signatures 7f..7s, all clef displacements. Bounded: pitch spelling, onset and duration in quarters, ties, grace notes, voices/staves/parts, measure starts, meter/key/clef, exact divisions, on generated documents; export->load keeps onset, duration, pitch, staff; reader chosen by extension.",
     "note": "readers bounded only",
 }
 EXPLANATION = "SMT contract on dot_function, closed decoders, bounded run-time contracts with independent writers."
@@ -30,6 +30,43 @@ def _contracts():
                             requires=[("positive_value", lambda a: a.duration > 0)], float_mode="real",
                             ensures=[("dotted_value_adds_half_of_the_previous_addition", (lambda k: lambda a, r: r * (2 ** (k + 1) - 1) == a.duration * 2 ** k)(dots))],
                             name="dot_function[dots=%d]" % dots))
+    # MEI: duration of an element without dur.ppq, from value, dots and the enclosing tuplet, for EVERY divisions value for which it is integral
+    from pyv.contracts import Const, Int, Obj, ListOf
+
+    def mei_call(ip, fobj, a):
+        from lxml import etree
+        from partitura.io.importmei import MeiParser
+        ns = "http://www.music-encoding.org/ns/mei"
+        dur, dots, tup = a.shape
+        inner = '<note xml:id="x1" dur="%d"%s pname="c" oct="4"/>' % (dur, ' dots="%d"' % dots if dots else "")
+        if tup:
+            inner = '<tuplet num="%d" numbase="%d">%s</tuplet>' % (tup[0], tup[1], inner)
+        root = etree.fromstring('<layer xmlns="%s">%s</layer>' % (ns, inner))
+        el = root.find(".//{%s}note" % ns)
+        parser = MeiParser.__new__(MeiParser)
+        parser.ns = ns
+        a.__dict__["_keep"] = (root, parser)
+        if ip is None:
+            import types
+            part = types.SimpleNamespace(_quarter_durations=[a.divs])
+            return fobj(parser, el, part)
+        import types
+        part = types.SimpleNamespace(_quarter_durations=[a.divs])
+        return ip.call(fobj, [parser, el, part], {})
+
+    def _mei_terms(a):
+        dur, dots, tup = a.shape
+        tm = tup and (tup[1], tup[0]) or (1, 1)   # (normal, actual)
+        num = 4 * tm[0] * (2 ** (dots + 1) - 1)
+        den = dur * tm[1] * 2 ** dots
+        return num, den
+    shapes = [(d, k, t) for d in (1, 2, 4, 8, 16, 32) for k in (0, 1, 2, 3) for t in (None, (3, 2), (5, 4))]
+    out.append(Contract("C19", "partitura.io.importmei.MeiParser._duration_info", [("shape", Enum(shapes)), ("divs", Int(1, None)), ("k", Int(0, None))],
+                        call=mei_call,
+                        requires=[("the_divisions_represent_the_duration_as_the_integer_k", lambda a: a.divs * _mei_terms(a)[0] == a.k * _mei_terms(a)[1])],
+                        float_mode="real",
+                        ensures=[("duration_from_value_dots_and_tuplet_ratio", lambda a, r: (r[0] == "x1") & (r[1] == a.k))],
+                        name="MeiParser._duration_info", split="shape"))
     return out
 
 
